@@ -27,7 +27,7 @@ def summary(t):
 
 def run(ctx):
     thorough = ctx.tier == "thorough"
-    ncases = 60000 if thorough else 2500
+    ncases = 50000 if thorough else 2500
     maxmsgs = 5 if thorough else 3
     maxlen = 22 if thorough else 14
 
